@@ -30,7 +30,7 @@ def reclaimer_oracle(prog, raw):
     if 'STEP LIMIT' in raw: return 'live-lock: a thread waits for calls that the background reclaimer never makes (lost wake-up) - step limit reached'
     if 'ABORT' in raw or 'BUG ' in raw: return 'abnormal run: ' + raw[-300:]
     import oracles
-    so = oracles.sleeper_order(raw)
+    so = oracles.sleeper_order(raw) or oracles.waker_order(raw)
     if so: return so
     ev = [l.split() for l in raw.splitlines() if l and l[0].isdigit()]
     q = {}; made = {}; owner = {}; qtime = {}; open_ = {}; sections = []; depth = {}; qdone = {}
